@@ -186,3 +186,49 @@ func soleDefinitionOutsideLoops(info *types.Info, body *ast.BlockStmt, obj types
 	visit(body, false)
 	return n == 1
 }
+
+// builtFields returns, per field, the value a struct built by the composite literal lit ends up
+// with: the literal's keyed elements plus later `holder.f = v` assignments in body, where holder
+// is the variable the literal (or its address) is assigned to. "literal + field assignments" and
+// "one literal" are the same construction.
+func builtFields(info *types.Info, body ast.Node, lit *ast.CompositeLit) map[*types.Var]ast.Expr {
+	out := map[*types.Var]ast.Expr{}
+	for _, el := range lit.Elts {
+		if kv, ok := el.(*ast.KeyValueExpr); ok {
+			if f, ok := astx.ObjOf(info, kv.Key).(*types.Var); ok && f != nil {
+				out[f] = kv.Value
+			}
+		}
+	}
+	var holder types.Object
+	ast.Inspect(body, func(z ast.Node) bool {
+		if as, ok := z.(*ast.AssignStmt); ok && len(as.Lhs) == len(as.Rhs) {
+			for i, r := range as.Rhs {
+				r = astx.Unparen(r)
+				if u, ok := r.(*ast.UnaryExpr); ok && u.Op.String() == "&" {
+					r = astx.Unparen(u.X)
+				}
+				if r == ast.Expr(lit) {
+					holder = astx.ObjOf(info, as.Lhs[i])
+				}
+			}
+		}
+		return true
+	})
+	if holder == nil {
+		return out
+	}
+	ast.Inspect(body, func(z ast.Node) bool {
+		if as, ok := z.(*ast.AssignStmt); ok && len(as.Lhs) == len(as.Rhs) {
+			for i, l := range as.Lhs {
+				if sel, ok := astx.Unparen(l).(*ast.SelectorExpr); ok && astx.ObjOf(info, sel.X) == holder {
+					if f := astx.FieldOf(info, sel); f != nil {
+						out[f] = as.Rhs[i]
+					}
+				}
+			}
+		}
+		return true
+	})
+	return out
+}
